@@ -7,6 +7,7 @@ import Wsp.Model.Text
 import Wsp.Model.Cmd
 import Wsp.Spec.Oracles
 import Driver.Ieee
+import Driver.CmdOps
 open Wsp
 
 def o : FOps := FOps.ieee
@@ -120,6 +121,17 @@ def headerStr (h : Header) : String :=
 structure St where
   w : World := ⟨none, none⟩
   tree : Cmd.Tree := []
+  cur : String := ""
+
+/-- write the current file's disk image back into the tree -/
+def St.flush (st : St) : St :=
+  if st.cur = "" then st else
+  match st.w.disk with
+  | some d => { st with tree := st.tree.set st.cur d }
+  | none => { st with tree := st.tree.filter fun e => e.1 ≠ st.cur }
+
+def St.reload (st : St) : St :=
+  if st.cur = "" then st else { st with w := ⟨st.tree.get st.cur, none⟩ }
 
 def withHandle (st : St) (f : Handle → St × String) : St × String :=
   match st.w.h with
@@ -139,6 +151,16 @@ def doOp (st : St) (op : LibOp) : St × String :=
 def stepLib (st : St) (toks : List String) : Option (St × String) :=
   match toks with
   | ["reset"] => some ({}, "ok")
+  | ["resetfile"] => some ({ st with w := ⟨none, none⟩ }, "ok")
+  | ["use", name] =>
+    let st := st.flush
+    some ({ st with cur := name, w := ⟨st.tree.get name, none⟩ }, "ok")
+  | ["fdisk", name, hdr] => do
+    let hdr ← hdr.toNat?
+    let st := st.flush
+    match st.tree.get name with
+    | none => return (st, "none")
+    | some d => return (st, s!"ok {canonHash hdr d}")
   | ["create", lay, agg, xff] => do
     let lay ← parseLay lay; let agg ← agg.toNat?; let xff ← natOfHex xff
     return doOp st (.create lay agg (UInt32.ofNat xff))
@@ -300,8 +322,9 @@ def step (st : St) (line : String) : St × String :=
         match Spec.stepSpec o toks with
         | some s => (st, s)
         | none =>
-          match Cmd.stepCmd o st.tree toks with
-          | some (tree, s) => ({ st with tree := tree }, s)
+          let st := st.flush
+          match CmdDrv.stepCmd o st.tree (if toks.head? == some "snapshot" then "snapshot" :: toks.tail else toks) with
+          | some (tree, s) => (({ st with tree := tree } : St).reload, s)
           | none => (st, "bad-op")
 
 partial def loop (hin hout : IO.FS.Stream) (st : St) : IO Unit := do
